@@ -16,7 +16,7 @@ def tasks(tier):
 
 TRUSTED_BASE = TRUSTED_CORE
 ASSUMPTIONS = SCHED_ASSUMPTIONS + [CLOSURE_ASSUMPTION]
-NOT_COVERED = ["'exactly once' is proved as: a demanded time is in next_steps at most once (I5), is removed only by the step at that time, and none before until is left at normal termination; that the run terminates is the liveness half of C05 (not decided)", 'initial events are set up by World.set_initial_event, which is not under contract (one straight-line assignment); the initial demand at time 0 is (SimRunner.__init__, contract contracts.runner_init)']
+NOT_COVERED = ["'exactly once' is proved as: a demanded time is in next_steps at most once (I5), is removed only by the step at that time, and none before until is left at normal termination; that the run terminates is the liveness half of C05 (not decided)", 'initial demands (time 0 unless event-based: SimRunner.__init__; initial events: World.set_initial_event, which replaces the initial demand) are under contract (contracts.runner_init); that World.start hands the right depth to SimRunner is covered by the bounded group-scoping stand-in of C11 only']
 LEVEL_TEXT = 'Exact step set: demands are justified at every schedule_step call (only the documented reasons), dedup and strict increase are invariant clauses (I5, K), range 0 <= t < until is asserted at BEGIN, nothing demanded before until is left at normal termination (postcondition of sim_process). End to end (BOUNDED, not a proof): the step times of real runs of the ungrouped scenarios of the harness (count in coverage.bounded[].bound) equal those of a sequential reference semantics written from the statement. Entity creation (a child entity carries the model of its own type: trigger classification) by a BOUNDED stand-in.'
 DESIGN_REF = "DESIGN.md section 8 (C02)"
 LEVEL_NOTE = 'Proved for any number of simulators, any topology, any reply values and every interleaving, under the listed assumptions (evidence: assumptions, coverage.trusted_base). Trusted: pyvc encoder, the rely/guarantee meta-theorem, assumed contracts of asyncio/heapq, the time/delay algebra axioms (C08 provenance), static connection-table facts, z3/cvc5.'
